@@ -18,7 +18,9 @@
 // where an escape is required), and the member order of single objects (all orders up to 3 members, otherwise
 // reverse + rotation + random ones). Document objects under an `additionalProperties` rule (every mode: false,
 // true / "any", each schema type, "@t" / "@u") carry 0-4 additional members of mixed conformity, so that an
-// order-dependent verdict (state kept between the members of one object) shows.
+// order-dependent verdict (state kept between the members of one object) shows. Schema objects also carry KEY
+// SHORTCUTS (`@k1: value`, 1-4 per object, string key types of every rule kind) and documents keys drawn to match
+// them: keys.go (generator, what is demanded, known-finding class K-C13-keyorder).
 //
 // Schema side, first variant of every schema: the COMBINATION line-end style (LF, CRLF, CR, four mixtures; by
 // turns) x dense user comments (`#` at line ends and on own lines, incl. empty and one-character ones, ###
@@ -100,13 +102,15 @@ type rule struct {
 }
 
 type node struct {
-	kind    string // obj arr int flt str bool null ref
-	lit     string // literal text as written in the schema (scalars, shortcuts)
-	val     interface{}
-	rules   []rule
-	note    string   // "" = no note
-	keys    []string // schema key texts WITH quotes
-	dkeys   []string // decoded keys
+	kind  string // obj arr int flt str bool null ref
+	lit   string // literal text as written in the schema (scalars, shortcuts)
+	val   interface{}
+	rules []rule
+	note  string   // "" = no note
+	keys  []string // schema key texts WITH quotes
+	dkeys []string // decoded keys
+	// short: key shortcuts (`@k1: value`), parallel to keys; nil = a literal key (the slice is nil when the object has none)
+	short   []*keyType
 	kids    []*node
 	compact bool // the whole subtree is printed on one line (and has no annotations below the top)
 	// helpers for document sampling
@@ -190,7 +194,9 @@ type gen struct {
 	wide     bool
 	docStats []string
 	// named enum rules (`{enum: @e1}`, the one rule value that is a shortcut): only while namedOK (root schema)
-	namedOK    bool
+	namedOK bool
+	// ktypes: the string types `@k1` … of this case that objects may use as key shortcuts (wide generator only)
+	ktypes     []*keyType
 	named      map[string]string // "@e1" -> text of the enum rule
 	namedOrder []string
 }
@@ -626,6 +632,12 @@ func (g *gen) compactNode(depth int) *node {
 				n.dkeys = append(n.dkeys, keyPool[perm[i]].decoded)
 				n.kids = append(n.kids, build(d-1))
 			}
+			if g.wide && len(g.ktypes) > 0 && g.chance(0.3) {
+				kp := r.Perm(len(g.ktypes))
+				for _, ki := range kp[:1+r.Intn(len(kp))] {
+					g.addShortcut(n, r.Intn(len(n.kids)+1), g.ktypes[ki], build(d-1))
+				}
+			}
 			return n
 		case 2:
 			ex := g.strs()[r.Intn(len(g.strs()))]
@@ -664,6 +676,13 @@ func (g *gen) genNode(depth int, inObj, allowRef bool) *node {
 			n.keys = append(n.keys, keyPool[perm[i]].text)
 			n.dkeys = append(n.dkeys, keyPool[perm[i]].decoded)
 			n.kids = append(n.kids, g.genNode(depth-1, true, allowRef))
+		}
+		if g.wide && len(g.ktypes) > 0 && g.chance(0.6) {
+			// 1-4 key shortcuts `@k: value` (distinct key types) at random places among the literal keys
+			kp := r.Perm(len(g.ktypes))
+			for _, ki := range kp[:1+r.Intn(len(kp))] {
+				g.addShortcut(n, r.Intn(len(n.kids)+1), g.ktypes[ki], g.genNode(depth-2, true, allowRef))
+			}
 		}
 		if g.chance(0.4) {
 			ap := []string{"true", "false", `"any"`, `"string"`, `"integer"`, `"@t"`}
@@ -1465,7 +1484,23 @@ func (g *gen) sample(n *node, types typeTable, fuel int) *dval {
 			if k.optional && r.Intn(2) == 0 {
 				continue
 			}
-			d.keys = append(d.keys, n.dkeys[i])
+			key := n.dkeys[i]
+			if kt := n.shortAt(i); kt != nil {
+				// a key shortcut: a key drawn to match its type (keys.go); 1 time in 12 a second member for the same shortcut
+				// (one-slot semantics: such a document is ambiguous, observed but not demanded)
+				var ok bool
+				if key, ok = g.drawKey(n, kt, d.keys); !ok {
+					continue
+				}
+				g.docStats = append(g.docStats, "doc_key_drawn_for_shortcut_"+kt.tpl.fam)
+				if r.Intn(12) == 0 {
+					if k2, ok := g.drawKey(n, kt, append(append([]string{}, d.keys...), key)); ok {
+						d.keys = append(d.keys, k2)
+						d.kids = append(d.kids, g.sample(k, types, fuel))
+					}
+				}
+			}
+			d.keys = append(d.keys, key)
 			d.kids = append(d.kids, g.sample(k, types, fuel))
 		}
 		if g.wide && n.addProps != "" {
@@ -1474,6 +1509,9 @@ func (g *gen) sample(n *node, types typeTable, fuel int) *dval {
 			cnt := []int{0, 1, 2, 2, 3, 3, 4}[r.Intn(7)]
 			perm := r.Perm(len(extraKeys))
 			for i := 0; i < cnt; i++ {
+				if len(n.short) > 0 && hasKey(d.keys, extraKeys[perm[i]]) {
+					continue
+				}
 				d.keys = append(d.keys, extraKeys[perm[i]])
 				d.kids = append(d.kids, g.apValue(n.addProps, types, fuel))
 			}
@@ -1525,6 +1563,15 @@ func (g *gen) sample(n *node, types typeTable, fuel int) *dval {
 		return &dval{kind: 'n', num: n.lit}
 	}
 	return &dval{kind: 'l', lit: n.lit}
+}
+
+func hasKey(keys []string, k string) bool {
+	for _, x := range keys {
+		if x == k {
+			return true
+		}
+	}
+	return false
 }
 
 // extraKeys: keys of additional members (none of them is in keyPool); every escapable character occurs.
@@ -1987,7 +2034,7 @@ func build(t texts) (*jschema.Schema, string) {
 	if _, err := s.UsedUserTypes(); err != nil {
 		return nil, errCode(err)
 	}
-	for _, nm := range typeOrder {
+	for _, nm := range allTypeOrder {
 		if txt, ok := t.types[nm]; ok {
 			if err := s.AddType("@"+nm, jschema.New("@"+nm, txt)); err != nil {
 				return nil, "ADDTYPE @" + nm + " " + errCode(err)
@@ -2031,6 +2078,7 @@ func astOf(s *jschema.Schema, dropNotes, sortRules bool) string {
 type obs struct {
 	check string
 	ast   []string // root, then types
+	names []string // what ast[i] is the AST of: "root", "@t" …
 	val   []string
 }
 
@@ -2053,9 +2101,11 @@ func observe(t texts, docs []string, dropNotes, sortRules bool) obs {
 		}
 		return astOf(s, dropNotes, sortRules)
 	}))
-	for _, nm := range typeOrder {
+	o.names = append(o.names, "root")
+	for _, nm := range allTypeOrder {
 		if txt, ok := t.types[nm]; ok {
 			o.ast = append(o.ast, vh.Recover(func() string { return astOf(jschema.New("@"+nm, txt), dropNotes, sortRules) }))
+			o.names = append(o.names, "@"+nm)
 		}
 	}
 	for _, d := range docs {
@@ -2105,7 +2155,7 @@ func showTexts(label string, t texts) string {
 	for _, nm := range t.namedOrder {
 		fmt.Fprintf(&sb, "\n%s AddRule %s = enum %q", label, nm, t.named[nm])
 	}
-	for _, nm := range typeOrder {
+	for _, nm := range allTypeOrder {
 		if txt, ok := t.types[nm]; ok {
 			fmt.Fprintf(&sb, "\n%s AddType @%s = %q", label, nm, txt)
 		}
@@ -2147,6 +2197,9 @@ func oneCase(seed int64, nVariants, nDocVariants, nSweep, nProbe int, explore bo
 	g := &gen{r: rand.New(rand.NewSource(seed)), features: map[string]bool{}, wide: true}
 	r := g.r
 	types := typeTable{}
+	if r.Intn(5) < 2 { // 2 cases in 5 have key types @k1 …: objects everywhere may use them as key shortcuts
+		g.drawKeyTypes()
+	}
 	useTypes := r.Intn(4) != 0
 	if useTypes {
 		for _, nm := range typeOrder {
@@ -2188,9 +2241,47 @@ func oneCase(seed int64, nVariants, nDocVariants, nSweep, nProbe int, explore bo
 				t.types[nm] = sp.print(n)
 			}
 		}
+		for _, kt := range g.ktypes {
+			t.types[kt.name] = sp.print(kt.n)
+		}
 		return t
 	}
+	// schema objects with key shortcuts (root and added types): what the classification of the documents needs
+	var sos []shortObj
+	collectShortObjs(root, &sos)
+	for _, nm := range typeOrder {
+		collectShortObjs(types[nm], &sos)
+	}
+	// only the key types that some object uses are added to the schema
+	var usedKT []*keyType
+	for _, kt := range g.ktypes {
+		for _, so := range sos {
+			for _, x := range so.kts {
+				if x == kt && (len(usedKT) == 0 || usedKT[len(usedKT)-1] != kt) {
+					usedKT = append(usedKT, kt)
+				}
+			}
+		}
+	}
+	g.ktypes = usedKT
 	base := printAll(baseSpell())
+	for _, kt := range g.ktypes {
+		res.stat("key_type_" + kt.tpl.fam)
+	}
+	for _, so := range sos {
+		dis := "pairwise_disjoint"
+		for _, a := range so.kts {
+			for _, b := range so.kts {
+				if a != b && !disjointMemo[[2]*keyTemplate{a.tpl, b.tpl}] {
+					dis = "overlapping"
+				}
+			}
+		}
+		if len(so.kts) < 2 {
+			dis = "single"
+		}
+		res.stat(fmt.Sprintf("schema_object_key_shortcuts_%d_%s", len(so.kts), dis))
+	}
 
 	// documents
 	var dvals []*dval
@@ -2287,10 +2378,7 @@ func oneCase(seed int64, nVariants, nDocVariants, nSweep, nProbe int, explore bo
 		}
 		for i := range bo.ast {
 			if bo.ast[i] != vo.ast[i] {
-				which := "root"
-				if i > 0 {
-					which = "@" + typeOrder[i-1]
-				}
+				which := bo.names[i]
 				bad = append(bad, "ast")
 				implS = append(implS, "AST("+which+",variant)="+vo.ast[i])
 				modelS = append(modelS, "AST("+which+",base)="+bo.ast[i])
@@ -2347,7 +2435,41 @@ func oneCase(seed int64, nVariants, nDocVariants, nSweep, nProbe int, explore bo
 	if raw.check == "OK" {
 		// sweep: one rewrite at a time, systematically. verdictOf validates one re-spelling of document j and
 		// reports a change of the verdict.
-		verdictOf := func(j int, vtxt, rewrite, replay string) string {
+		// Documents with key-shortcut members (keys.go): the class of every object of document j; amb[j] = some object
+		// of the document is in the structural class of the known finding K-C13-keyorder.
+		oc := make([]map[*dval]objClass, len(dvals))
+		amb := make([]string, len(dvals))
+		for j, d := range dvals {
+			oc[j] = docClass(root, types, d)
+			mm := 0
+			for _, c := range oc[j] {
+				if c.ambiguous() {
+					amb[j] = c.why()
+				}
+				if c.overlap && !c.reuse {
+					res.stat("doc_keyshortcut_object_key_admitted_by_two_shortcuts_without_competitor")
+				}
+				if c.matched > mm {
+					mm = c.matched
+				}
+			}
+			if len(sos) > 0 {
+				if amb[j] != "" {
+					res.stat("doc_keyshortcut_class_ambiguous_" + dkind[j])
+				} else {
+					res.stat(fmt.Sprintf("doc_keyshortcut_class_unambiguous_matched_members_%d", mm))
+				}
+			}
+		}
+		// orderClass: the known-finding class of a verdict change under a change of the member order
+		orderClass := func(why string) (class, note string) {
+			if why == "" {
+				return "", ""
+			}
+			res.stat("known_K-C13-keyorder_verdict_depends_on_member_order")
+			return "K-C13-keyorder", "structural class K-C13-keyorder: " + why
+		}
+		verdictOf := func(j int, vtxt, rewrite, replay, why string) string {
 			var x, y interface{}
 			if e1, e2 := stdjson.Unmarshal([]byte(docs[j]), &x), stdjson.Unmarshal([]byte(vtxt), &y); e1 != nil || e2 != nil || fmt.Sprintf("%#v", x) != fmt.Sprintf("%#v", y) {
 				res.diffs = append(res.diffs, vh.Diff{Component: "C13-document", Input: fmt.Sprintf("base=%q variant=%q", docs[j], vtxt), Impl: "GENERATOR BUG: re-spelling changed the JSON value", Model: ""})
@@ -2355,11 +2477,14 @@ func oneCase(seed int64, nVariants, nDocVariants, nSweep, nProbe int, explore bo
 			}
 			got := validate(base, vtxt)
 			if got != raw.val[j] {
+				class, note := orderClass(why)
 				res.diffs = append(res.diffs, vh.Diff{
 					Component: "C13-document",
 					Input:     fmt.Sprintf("%s\nbase document = %q\nvariant document = %q\nrewrites=[%s] seed=%d doc=%d %s", showTexts("", base), docs[j], vtxt, rewrite, seed, j, replay),
 					Impl:      "Validate(variant document)=" + got,
 					Model:     "same verdict as the base spelling: " + raw.val[j],
+					Class:     class,
+					Note:      note,
 				})
 			}
 			return got
@@ -2379,7 +2504,7 @@ func oneCase(seed int64, nVariants, nDocVariants, nSweep, nProbe int, explore bo
 					res.kase("D\x00"+base.root+"\x00"+docs[j]+"\x00"+vtxt, vtxt != docs[j])
 					if vtxt != docs[j] {
 						res.stat("doc_sweep_escapes_" + st)
-						verdictOf(j, vtxt, "escapes:"+st, "sweep")
+						verdictOf(j, vtxt, "escapes:"+st, "sweep", "")
 					}
 				}
 			}
@@ -2397,19 +2522,29 @@ func oneCase(seed int64, nVariants, nDocVariants, nSweep, nProbe int, explore bo
 			}
 			walk(d)
 			pr.Shuffle(len(objs), func(a, b int) { objs[a], objs[b] = objs[b], objs[a] })
+			// objects with two or more members that go to key shortcuts first: their order is what a validator's
+			// shortcut book-keeping can depend on
+			sort.SliceStable(objs, func(a, b int) bool { return oc[j][objs[a]].matched >= 2 && oc[j][objs[b]].matched < 2 })
 			if len(objs) > 2 {
 				objs = objs[:2]
 			}
 			for _, o := range objs {
 				orders := memberOrders(len(o.kids), pr)
 				res.stat("doc_sweep_order_objects_members_" + sizeBucket(len(o.kids)))
+				if c := oc[j][o]; c.matched >= 2 {
+					cl := "unambiguous"
+					if c.ambiguous() {
+						cl = "ambiguous"
+					}
+					res.stat(fmt.Sprintf("doc_sweep_order_objects_with_%d_shortcut_members_%s", c.matched, cl))
+				}
 				verdicts := map[string]bool{}
 				for _, ord := range orders {
 					ds := &docSpell{base: true, r: pr, order: map[*dval][]int{o: ord}}
 					vtxt := ds.text(d)
 					res.kase("D\x00"+base.root+"\x00"+docs[j]+"\x00"+vtxt, true)
 					res.stat("doc_sweep_order_spellings")
-					verdicts[verdictOf(j, vtxt, "member-order", fmt.Sprintf("sweep order=%v", ord))] = true
+					verdicts[verdictOf(j, vtxt, "member-order", fmt.Sprintf("sweep order=%v", ord), oc[j][o].why())] = true
 				}
 				if len(verdicts) > 1 {
 					res.stat("doc_sweep_order_verdict_depends_on_order")
@@ -2449,11 +2584,17 @@ func oneCase(seed int64, nVariants, nDocVariants, nSweep, nProbe int, explore bo
 				got := validate(base, vtxt)
 				res.stat("docside_verdict_" + got)
 				if got != raw.val[j] {
+					class, note := "", ""
+					if ds.permute { // every object of the document may be written in another order
+						class, note = orderClass(amb[j])
+					}
 					res.diffs = append(res.diffs, vh.Diff{
 						Component: "C13-document",
 						Input:     fmt.Sprintf("%s\nbase document = %q\nvariant document = %q\nrewrites=%v seed=%d doc=%d variant=%d", showTexts("", base), docs[j], vtxt, ds.applied, seed, j, k),
 						Impl:      "Validate(variant document)=" + got,
 						Model:     "same verdict as the base spelling: " + raw.val[j],
+						Class:     class,
+						Note:      note,
 					})
 				}
 			}
@@ -2509,7 +2650,7 @@ func checkMsg(t texts) string {
 	return vh.Recover(func() string {
 		s, e := build(t)
 		if e != "" {
-			for _, nm := range typeOrder {
+			for _, nm := range allTypeOrder {
 				if txt, ok := t.types[nm]; ok {
 					if err := jschema.New("@"+nm, txt).Check(); err != nil {
 						return "@" + nm + ": " + strings.SplitN(err.Error(), "\n", 2)[0]
@@ -2532,14 +2673,21 @@ var (
 )
 
 func Run(args []string) {
-	rep := vh.NewReport(command, "abstract schemas (objects, arrays incl. nested arrays followed by annotated elements, scalars of 5 kinds, @t / @t | @u shortcuts to 2 generated added types; rules min/max/exclusive*/lengths/regex/enum/const/type/precision/optional/nullable/minItems/maxItems/additionalProperties/or; notes; 1 in 6 schemas carries one planted single-symptom defect) printed in a BASE spelling and in VARIANT spellings = random compositions of: line ends LF/CRLF/CR/mixed, indentation none/spaces/tabs/mixed, user comments (# at line end incl. empty, full-line #, ### blocks between lines; BETWEEN THE TOKENS of a line at every slot the language accepts: inside empty brackets, behind an opening bracket, value|comma, value / comma / bracket | annotation, before / behind the line, behind an annotation, inside one-line subtrees - forms `# …`+line break, `### … ###`, ### block spanning line breaks, 1-3 in a row), inline vs multi-line annotations (with line breaks inside the rule object), notes dropped/changed/added, quoted vs bare rule names, trailing comma, extra spaces around ':' ',', rule order. Compared per (base, variant): Check verdict+code, AST JSON of root and added types (comment fields blanked iff notes were rewritten, rule order normalised iff rules were shuffled), Validate verdict on 6 documents (2 sampled, 3 mutated, 1 unrelated). The first variant of every schema combines a line-end style (LF / CRLF / CR / 4 mixtures, by turns) with dense user comments. Comment sweep: per schema 3 single insertions (1-3 comments of one form at ONE slot of the base spelling or of a carrier spelling with other line ends / multi-line annotations / quoted names; slot class chosen uniformly among the classes present, stats comment_sweep <class> <form>) compared with the base spelling like a variant, and 1 probe at a place outside the language (stats outside_language …, never a diff). Named enum rules ({enum: @e1}, added with AddRule) are the rule values that are shortcuts. Document side: each document of an accepted schema re-spelled (one random composition of whitespace, member order at all levels, escapes in keys and values incl. surrogate pairs and \\/ , fraction zeros; plus sweeps with one rewrite at a time: 5 document-wide escape forms = all two-character escapes / \\u lower / upper / mixed-case hex / \\u only where required, and for up to 2 objects per document all member orders (<= 3 members) or reverse + rotation + 6 random orders) and validated; objects under additionalProperties (all modes: false, true, any, every schema type, @t, @u) get 0-4 additional members of mixed conformity. nontrivial = variant text differs from base text and (schema side) the schema has >=1 annotation / (document side) the document has a string or an object with >=2 members")
+	rep := vh.NewReport(command, "abstract schemas (objects, arrays incl. nested arrays followed by annotated elements, scalars of 5 kinds, @t / @t | @u shortcuts to 2 generated added types; rules min/max/exclusive*/lengths/regex/enum/const/type/precision/optional/nullable/minItems/maxItems/additionalProperties/or; notes; 1 in 6 schemas carries one planted single-symptom defect) printed in a BASE spelling and in VARIANT spellings = random compositions of: line ends LF/CRLF/CR/mixed, indentation none/spaces/tabs/mixed, user comments (# at line end incl. empty, full-line #, ### blocks between lines; BETWEEN THE TOKENS of a line at every slot the language accepts: inside empty brackets, behind an opening bracket, value|comma, value / comma / bracket | annotation, before / behind the line, behind an annotation, inside one-line subtrees - forms `# …`+line break, `### … ###`, ### block spanning line breaks, 1-3 in a row), inline vs multi-line annotations (with line breaks inside the rule object), notes dropped/changed/added, quoted vs bare rule names, trailing comma, extra spaces around ':' ',', rule order. Compared per (base, variant): Check verdict+code, AST JSON of root and added types (comment fields blanked iff notes were rewritten, rule order normalised iff rules were shuffled), Validate verdict on 6 documents (2 sampled, 3 mutated, 1 unrelated). The first variant of every schema combines a line-end style (LF / CRLF / CR / 4 mixtures, by turns) with dense user comments. Comment sweep: per schema 3 single insertions (1-3 comments of one form at ONE slot of the base spelling or of a carrier spelling with other line ends / multi-line annotations / quoted names; slot class chosen uniformly among the classes present, stats comment_sweep <class> <form>) compared with the base spelling like a variant, and 1 probe at a place outside the language (stats outside_language …, never a diff). Named enum rules ({enum: @e1}, added with AddRule) are the rule values that are shortcuts. Document side: each document of an accepted schema re-spelled (one random composition of whitespace, member order at all levels, escapes in keys and values incl. surrogate pairs and \\/ , fraction zeros; plus sweeps with one rewrite at a time: 5 document-wide escape forms = all two-character escapes / \\u lower / upper / mixed-case hex / \\u only where required, and for up to 2 objects per document all member orders (<= 3 members) or reverse + rotation + 6 random orders) and validated; objects under additionalProperties (all modes: false, true, any, every schema type, @t, @u) get 0-4 additional members of mixed conformity. KEY SHORTCUTS (keys.go): 2 cases in 5 have 1-4 string key types @k1..@k4 (regex anchored / unanchored / with slash, minLength / maxLength, enum with escaped items, plain example with and without escapes, const, email / uuid / date / datetime / uri, rule combinations, a type admitting every key; pairwise disjoint in 2 of 3 such cases, else overlapping); objects anywhere (root, nested, added types, one-line subtrees) carry 1-4 key shortcuts `@k: value` at random places among their literal keys, with or without additionalProperties; sampled documents draw keys that match the shortcuts (mostly one key per shortcut that no other shortcut admits; sometimes any key of the type or two keys for one shortcut) and go through all document rewrites - the member-order sweep takes objects with >= 2 shortcut-matched members first. A verdict change under a member-order change carries Class K-C13-keyorder iff, by the generator's own key predicates (checked against the tree at start: stat keytable_pairs_checked, a disagreement is a correspondence-level diff C13-keytable), two distinct non-literal keys of a document object are admitted by the key type of ONE shortcut of a schema object it can be validated against; otherwise it is unclassified. nontrivial = variant text differs from base text and (schema side) the schema has >=1 annotation / (document side) the document has a string or an object with >=2 members")
 	r := vh.NewRand(salt)
-	nSchemas := vh.Pick(2200, 60000)
+	nSchemas := vh.Pick(2100, 60000)
 	nVar, nDocVar := 4, 1
 	nSweep, nProbe := 3, 1
 	debug := len(args) > 0 && args[0] == "debug"
 	// `vh c13-metamorphic slots`: the slot map (every slot class x comment form once per schema: what the tree does)
 	explore := len(args) > 0 && args[0] == "slots"
+	// the generator's key predicates against the tree (keys.go); `vh c13-metamorphic keytable` prints the table only
+	if len(args) > 0 && args[0] == "keytable" {
+		reportKeyTable(rep, true)
+		rep.Finish()
+		return
+	}
+	reportKeyTable(rep, false)
 	if explore {
 		nSchemas = vh.Pick(1500, 20000)
 	}
